@@ -49,6 +49,11 @@ From NG Require Import V2.ClosedAst V2.Closed V2.ClosedRun.
 Import ListNotations.
 Open Scope string_scope.
 """
+PRE_X = """From Coq Require Import List String Bool.
+From NG Require Import V2.ClosedAst V2.Closed V2.Expand V2.ExpandRun.
+Import ListNotations.
+Open Scope string_scope.
+"""
 
 
 class Unsupported(Exception):
@@ -988,6 +993,105 @@ def v2_gen_program(rng, st):
     return "\n".join(L) + "\n"
 
 
+# ---- expansion model correspondence (fragment of V2/Expand.v)
+
+def v2_gen_fragment(rng, st):
+    """(source, stmt tree) of a random program inside the fragment V2/Expand.v models."""
+    L = ["flow main", "  $v = 0"]
+    EV = ["EvA()", "EvB()", "EvC()", "EvD()"]
+
+    def block(ind, depth, in_loop, is_else=False):
+        pad = "  " * ind
+        out = []
+        n = rng.choice([1, 1, 2, 2, 3])
+        for j in range(n):
+            r = rng.random()
+            if depth > 0 and r < 0.17 and not (is_else and j == 0):
+                L.append(f"{pad}if $v < {rng.randrange(3)}")
+                th = block(ind + 1, depth - 1, in_loop)
+                el = []
+                if rng.random() < 0.6:
+                    L.append(f"{pad}else")
+                    el = block(ind + 1, depth - 1, in_loop, True)
+                out.append(("if", th, el))
+                st["x_if"] += 1
+            elif depth > 0 and r < 0.32:
+                L.append(f"{pad}while $v < {rng.randrange(1, 4)}")
+                out.append(("while", block(ind + 1, depth - 1, True)))
+                st["x_while"] += 1
+            elif depth > 0 and r < 0.50:
+                cases = []
+                L.append(f"{pad}when {rng.choice(EV)}")
+                cases.append(block(ind + 1, depth - 1, in_loop))
+                for _ in range(rng.choice([0, 0, 1, 2])):
+                    L.append(f"{pad}or when {rng.choice(EV)}")
+                    cases.append(block(ind + 1, depth - 1, in_loop))
+                els = None
+                if rng.random() < 0.55:
+                    L.append(f"{pad}else")
+                    els = block(ind + 1, depth - 1, in_loop, True)
+                    st["x_when_else"] += 1
+                out.append(("when", cases, els))
+                st["x_when"] += 1
+            else:
+                k = rng.randrange(12)
+                if k < 2:
+                    L.append(f"{pad}$v = $v + 1")
+                    out.append(("plain",))
+                elif k < 4:
+                    L.append(f"{pad}" + rng.choice(["match EvX()", "send Out1()"]))
+                    out.append(("block",))
+                elif k == 4:
+                    m = rng.choice([2, 2, 3])
+                    L.append(f"{pad}match " + " or ".join(rng.choice(EV) for _ in range(m)))
+                    out.append(("matchor", m))
+                    st["x_or"] += 1
+                elif k == 5:
+                    m = rng.choice([2, 2, 3])
+                    L.append(f"{pad}match " + " and ".join(rng.choice(EV) for _ in range(m)))
+                    out.append(("matchand", m))
+                    st["x_and"] += 1
+                elif k in (6, 7) and (in_loop or rng.random() < 0.15):
+                    L.append(f"{pad}break")
+                    out.append(("break",))
+                    st["x_break"] += 1
+                elif k == 8 and (in_loop or rng.random() < 0.15):
+                    L.append(f"{pad}continue")
+                    out.append(("continue",))
+                    st["x_continue"] += 1
+                elif k == 9 and rng.random() < 0.4:
+                    w = rng.choice(["return", "abort"])
+                    L.append(f"{pad}{w}")
+                    out.append((w,))
+                else:
+                    L.append(f"{pad}$v = $v + 1")
+                    out.append(("plain",))
+        return out
+
+    tree = [("plain",)] + block(1, rng.choice([1, 2, 2, 3, 3]), False)
+    return "\n".join(L) + "\n", tree
+
+
+def v2_coq_stmts(tree):
+    out = []
+    for s in tree:
+        k = s[0]
+        if k in ("plain", "block", "break", "continue", "return", "abort"):
+            out.append("S" + k.capitalize())
+        elif k == "if":
+            out.append(f"SIf {v2_coq_stmts(s[1])} {v2_coq_stmts(s[2])}")
+        elif k == "while":
+            out.append(f"SWhile {v2_coq_stmts(s[1])}")
+        elif k == "matchor":
+            out.append(f"SMatchOr {s[1]}")
+        elif k == "matchand":
+            out.append(f"SMatchAnd {s[1]}")
+        else:
+            els = "None" if s[2] is None else f"(Some {v2_coq_stmts(s[2])})"
+            out.append(f"SWhen {C.coq_list([v2_coq_stmts(c) for c in s[1]])} {els}")
+    return C.coq_list(out)
+
+
 EVENTS = ["EvA", "EvB", "EvF", "EvG", "EvC", "EvX", "EvY", "EvZ"]
 # runtime errors of slide() that mean "not closed": a label lookup that fails (KeyError whose key
 # is a label name as expansion.py spells them), the two scope errors, pop from an empty handler stack
@@ -1024,7 +1128,7 @@ def v2_dynamic_child(path):
         sm._push_internal_event = rec
         outs = []
         status = "ok"
-        signal.setitimer(signal.ITIMER_REAL, 6.0)
+        signal.setitimer(signal.ITIMER_REAL, 8.0)
         try:
             state = v2util.init_state(job["src"])
             state = v2util.start_main(state)
@@ -1057,7 +1161,10 @@ def v2_dynamic(jobs, timeout_s=400):
     """Run jobs in child processes (chunks of 40) under a shell timeout. Returns {id: result}."""
     os.makedirs(os.path.join(C.BUILD, "c12"), exist_ok=True)
     res = {}
-    chunks = [jobs[i:i + 40] for i in range(0, len(jobs), 40)]
+    # corpus / replay programs get their own small chunks (their result must not depend on a slow neighbour)
+    first = [j for j in jobs if j["id"].startswith(("corpus", "replay"))]
+    rest = [j for j in jobs if not j["id"].startswith(("corpus", "replay"))]
+    chunks = [first[i:i + 6] for i in range(0, len(first), 6)] + [rest[i:i + 20] for i in range(0, len(rest), 20)]
 
     def one(ic):
         i, chunk = ic
@@ -1123,9 +1230,9 @@ def run(tier, seed, replay=None):
     for br in b["broken"]:
         out.add_broken(br, b["log"])
     with C.BuildLock():
-        okm, logm = C.coq_make(["theories/V1/CompileRun.vo", "theories/V2/ClosedRun.vo"])
+        okm, logm = C.coq_make(["theories/V1/CompileRun.vo", "theories/V2/ClosedRun.vo", "theories/V2/ExpandRun.vo"])
     if not okm:
-        out.add_broken("coq:model(V1/CompileRun,V2/ClosedRun)", logm)
+        out.add_broken("coq:model(V1/CompileRun,V2/ClosedRun,V2/ExpandRun)", logm)
     try:
         consts = v2_consts()
     except Exception as e:
@@ -1137,11 +1244,12 @@ def run(tier, seed, replay=None):
     n_v1_src = 400 if quick else 4000
     n_v2_gen = 400 if quick else 4000
     n_dyn = 120 if quick else 1200
+    n_frag = 400 if quick else 4000
     rp = None
     if replay:
         d = json.load(open(replay))
         rp = d.get("replay", d)
-        n_v1_trees = n_v1_src = n_v2_gen = n_dyn = 0
+        n_v1_trees = n_v1_src = n_v2_gen = n_dyn = n_frag = 0
 
     seen = set()
     nontrivial = 0
@@ -1159,7 +1267,10 @@ def run(tier, seed, replay=None):
         for fid, items in v1_items_of_source("replay", rp["source"]).items():
             v1_cases.append(("replay:" + fid, items))
     for _ in range(n_v1_trees):
-        v1_cases.append(("gen-tree", v1_gen_items(rng, rng.choice([1, 2, 2, 3, 3, 4]), st1)))
+        its = v1_gen_items(rng, rng.choice([1, 2, 2, 3, 3, 4]), st1)
+        if rng.random() < 0.15:
+            its = [{"meta": {"subflow": True}}] + its
+        v1_cases.append(("gen-tree", its))
     src_fail = 0
     for _ in range(n_v1_src):
         src = v1_gen_source(rng, st1)
@@ -1197,6 +1308,7 @@ def run(tier, seed, replay=None):
     off_terms, off_kept = [], []
     v1_unsupported = 0
     v1_slide_runs = 0
+    v1_meta_tails = 0
     v1_results = {"ok": 0, "DupLabel": 0, "UndefLabel": 0}
     for origin, items in v1_cases:
         r = v1_real_compile(items)
@@ -1222,6 +1334,17 @@ def run(tier, seed, replay=None):
                                                   {"kind": "v1-items", "items": items, "origin": origin, "problems": probs[:5]}))
             off_terms.append(v1_coq_elems(obs))
             off_kept.append((origin, items, obs))
+            if obs and obs[0]["t"] == "meta":
+                # runtime.py drops a leading meta element (elements = elements[1:]): the flow that
+                # actually runs is the tail, its offsets must stay inside as well
+                tail = obs[1:]
+                bad = v1_oracle(tail)
+                v1_meta_tails += 1
+                if bad:
+                    out.findings.append(C.Finding(v1_sig(bad) + ":after-meta-removal", f"offset leaves the flow once the meta element is dropped: {bad[0]} ({origin})",
+                                                  {"kind": "v1-items", "items": items, "origin": origin, "problems": bad[:5], "elements": tail}))
+                off_terms.append(v1_coq_elems(tail))
+                off_kept.append((origin + ":tail", items, tail))
         # model side
         try:
             tree = v1_tree_of_items(items)
@@ -1240,6 +1363,7 @@ def run(tier, seed, replay=None):
             if obs is not None and sum(1 for o in obs if o["t"] in ("if", "while", "branch", "jump")) >= 3:
                 nontrivial += 1
 
+    out.findings.sort(key=lambda f: len(json.dumps(f.replay, default=str)))   # smallest replay per signature first
     if okm and terms:
         bools, err = C.run_cases(PID + "_v1", PRE_V1, terms, "check_compile", shard=200)
         if err:
@@ -1265,7 +1389,8 @@ def run(tier, seed, replay=None):
 
     # ------------------------------------------------------------------ Colang 2.x
     st2 = {k: 0 for k in ("if", "while", "when", "orwhen", "when_else", "match", "await", "start", "activate",
-                          "break", "continue", "label", "group_and", "group_or")}
+                          "break", "continue", "label", "group_and", "group_or",
+                          "x_if", "x_while", "x_when", "x_when_else", "x_or", "x_and", "x_break", "x_continue")}
     v2_sources = []   # (origin, src)
     given_events = {}
     for i, x in enumerate(_corpus("v2-source")):
@@ -1291,7 +1416,17 @@ def run(tier, seed, replay=None):
         gen_programs.append(src)
         v2_sources.append((f"gen:{i}", src))
 
+    frag_trees = {}
+    for i in range(n_frag):
+        src, tree = v2_gen_fragment(rng, st2)
+        v2_sources.append((f"frag:{i}", src))
+        frag_trees[f"frag:{i}"] = tree
+    if rp and rp.get("kind") == "v2-fragment":
+        v2_sources.append(("frag:replay", rp["source"]))
+        frag_trees["frag:replay"] = rp["tree"]
+
     v2_terms, v2_kept = [], []
+    x_terms, x_kept = [], []
     rejected_files = 0
     rejected_flows = 0
     flows_by_origin = {}
@@ -1309,11 +1444,15 @@ def run(tier, seed, replay=None):
                 prob = v2_oracle(cfg, consts)
                 key = (origin, fid)
                 flows_by_origin.setdefault(origin, []).append(fid)
+                dist["v2_flows_" + origin.split(":")[0]] = dist.get("v2_flows_" + origin.split(":")[0], 0) + 1
                 if prob is not None:
                     oracle_problems[key] = (prob, v2_sig(cfg, prob))
                 term = v2_coq(model)
                 v2_terms.append(term)
                 v2_kept.append((origin, fid, src, model, prob))
+                if origin in frag_trees and fid == "main":
+                    x_terms.append(f"({v2_coq_stmts(frag_trees[origin])}, {term})")
+                    x_kept.append((origin, src, frag_trees[origin], model))
                 h = C.canon_hash(term)
                 if h not in seen:
                     seen.add(h)
@@ -1339,6 +1478,20 @@ def run(tier, seed, replay=None):
                                f"{len(disagree)} flows where the verified checker and the python oracle differ; smallest: "
                                f"{origin} flow `{fid}`: closedb={ok} oracle={prob} diag={diag[-600:]}")
 
+    # expansion model (V2/Expand.v) against the real expand_elements, modulo renaming by first occurrence
+    if okm and x_terms:
+        bools, err = C.run_cases(PID + "_x", PRE_X, x_terms, "check_expand", shard=60)
+        if err:
+            out.add_broken("correspondence:C12-v2-expand(coqc)", err)
+        else:
+            bad = [c for ok, c in zip(bools, x_kept) if not ok]
+            if bad:
+                origin, src, tree, model = min(bad, key=lambda c: len(c[1]))
+                mo = C.eval_term(PID + "_x", PRE_X, f"canon (expand {v2_coq_stmts(tree)})")
+                out.add_broken("correspondence:C12-v2-expand",
+                               f"{len(bad)} programs where expand_elements differs from V2.Expand.expand (modulo label renaming); "
+                               f"smallest:\n{src}\nreal={v2_coq(model)[:1500]}\nmodel={mo[-1500:]}")
+
     # findings: a flow the loader compiled that is not closed (python oracle on the real elements)
     reported = set()
     src_of = dict(v2_sources)
@@ -1359,7 +1512,8 @@ def run(tier, seed, replay=None):
     # dynamic probe of the real interpreter on generated programs (+ corpus/replay)
     dyn_jobs = []
     dyn_src = {}
-    cand = [(o, s) for o, s in v2_sources if o.startswith(("gen:", "corpus", "replay"))]
+    cand = [(o, s) for o, s in v2_sources if o.startswith(("gen:", "corpus", "replay"))
+            or (o.startswith("frag:") and any((o, f) in oracle_problems for f in flows_by_origin.get(o, [])))]
 
     def _flagged(origin):
         return any((origin, f) in oracle_problems for f in flows_by_origin.get(origin, []))
@@ -1383,11 +1537,14 @@ def run(tier, seed, replay=None):
             dyn_jobs.append({"id": jid, "src": src, "events": evs})
             dyn_src[jid] = (origin, src, evs)
     dyn_runs = dyn_errors = dyn_timeouts = 0
+    dyn_status = {}
     dyn_confirmed = {}
     if dyn_jobs and consts is not None:
         res = v2_dynamic(dyn_jobs)
         for jid, r in res.items():
             dyn_runs += 1
+            k_ = r["status"].split(":")[0] + (":" + r["status"].split(":")[1] if r["status"].startswith(("exc", "nonterminating")) else "")
+            dyn_status[k_] = dyn_status.get(k_, 0) + 1
             if r["status"] != "ok":
                 dyn_timeouts += 1
                 continue
@@ -1416,7 +1573,7 @@ def run(tier, seed, replay=None):
             f.what += f"; real interpreter on events {hit['events']}: {hit['errors'][0]}"
 
     out.coverage.update({
-        "evaluations": len(terms) + len(off_terms) + len(v2_terms) + dyn_runs + v1_slide_runs,
+        "evaluations": len(terms) + len(off_terms) + len(v2_terms) + len(x_terms) + dyn_runs + v1_slide_runs,
         "distinct_nontrivial": nontrivial,
         "rule": "v1: compiled flow with >=3 control elements (if/while/branch/jump); v2: expanded flow with >=3 jump/fork/"
                 "failure-handler/scope/loop-exit elements; distinct by hash of the Coq case term",
@@ -1426,16 +1583,18 @@ def run(tier, seed, replay=None):
             "v1_generated_trees": n_v1_trees, "v1_generated_sources": n_v1_src, "v1_sources_rejected_by_parser": src_fail,
             "v1_shipped_files_compiled": len(shipped_v1), "v1_shipped_files_rejected_by_parser": shipped_v1_rejected,
             "v1_inline_test_programs_compiled": inline_v1, "v1_inline_test_programs_rejected_by_parser": inline_v1_rejected,
-            "v1_flows_compared": len(terms), "v1_flows_offsets_checked": len(off_terms), "v1_results": v1_results,
+            "v1_flows_compared": len(terms), "v1_flows_checked_after_meta_removal": v1_meta_tails, "v1_flows_offsets_checked": len(off_terms), "v1_results": v1_results,
             "v1_outside_model_vocabulary": v1_unsupported, "v1_constructs": st1,
             "v2_shipped_files": n_shipped_v2, "v2_inline_test_programs": n_inline, "v2_generated_programs": n_v2_gen,
             "v2_files_rejected_by_loader": rejected_files, "v2_flows_rejected_by_loader": rejected_flows,
             "v2_flows_checked": len(v2_terms), "v2_constructs": st2,
+            "v2_fragment_programs": n_frag, "v2_expansions_compared_with_model": len(x_terms),
             "v2_flows_not_closed": len(oracle_problems), "v2_model_false": len(model_false),
             "v2_dynamic_runs": dyn_runs, "v2_dynamic_runs_with_closedness_error": dyn_errors,
-            "v2_dynamic_timeouts_or_load_failures": dyn_timeouts,
+            "v2_dynamic_timeouts_or_load_failures": dyn_timeouts, "v2_dynamic_status": dyn_status,
+            **dist,
         },
-        "traces_validated_against_impl": len(terms) + len(v2_terms) + dyn_runs + v1_slide_runs,
+        "traces_validated_against_impl": len(terms) + len(v2_terms) + len(x_terms) + dyn_runs + v1_slide_runs,
         "validation_kind": "v1: theorem for all item trees + differential; v2: per-program validation of the real expanded "
                            "elements by the verified checker closedb (C12_v2_checker_sound), not a theorem about expand_elements",
     })
@@ -1445,7 +1604,9 @@ def run(tier, seed, replay=None):
         "v2: one head token (position, open scopes, failure-handler stack); MergeHeads continues with the merging head's own scopes; "
         "head.scope_uids and flow_state.scopes are identified; Goto to an unknown label (runtime: warning + next element) counts as failure",
         "v2: send counts as blocking unless its static spec name is an internal event; label/scope/fork names are renamed injectively before printing",
-        "v2: closedness of expand_elements output is validated per program (verified checker), the expansion itself is not modelled",
+        "v2: closedness of expand_elements output is validated per program (verified checker); the expansion is modelled only for the "
+        "fragment of V2/Expand.v (if/while/break/continue, event match groups, when with single-event cases), where the static part "
+        "is a theorem (C12_v2_expand_static_closed_partial) and the model is diffed against expand_elements modulo renaming",
     ]
     if tier == "thorough" and b["ok"]:
         ok, log = C.coqchk(PID, b["files"])
